@@ -222,7 +222,8 @@ class EdgeLib(LibBase):
         if attr in sch and sch[attr][0] == "dyn" and not isinstance(v, VDyn):
             st.f[attr] = V.dyn_of(v)
             return [Outcome("next", st)]
-        if attr in sch and sch[attr][0] == "num" and isinstance(v, VDyn):
+        if attr in sch and sch[attr][0] == "num" and isinstance(v, VDyn) and ex.ctx.cls != "Edge":
+            # (Edge.__init__ itself validates the raw value, so there it stays dynamic)
             st.f[attr] = Num(z3.ToInt(v.num)) if sch[attr][1] == "int" else Num(v.num)
             return [Outcome("next", st)]
         if attr in sch and sch[attr][0] == "str" and isinstance(v, VDyn):
